@@ -1812,7 +1812,7 @@ class Interp:
                     vals[f] = self.eval(d, Env(), cls.module)
             o.attrs.update(vals)
             pi = cls.find_method('__post_init__')
-            if pi is not None:
+            if pi is not None and cls.name not in self.opts.get('skip_post_init', ()):
                 self.call_function(pi, [o], {})
             return o
         init = cls.find_method('__init__')
@@ -2344,6 +2344,8 @@ def _b_str(it, args, kw):
 def concrete_intset(t, bound=64):
     """members of a set term built from concrete integers (EmptySet / SetAdd / SetUnion), by evaluation"""
     out = set()
+    from . import norm as _norm
+    t = _norm.Normalizer(max_steps=200000).norm(t)        # spec functions applied to concrete patterns reduce to concrete sets
     for i in range(-1, bound):
         m = z3.simplify(z3.IsMember(z3.IntVal(i), t))
         if z3.is_true(m):
